@@ -41,7 +41,7 @@ def make_item(models, k):
         names = ['island', 'uuid', 'err_ra', 'peak_flux']
         galactic = False
         island = k
-        uuid = 'u%d' % k
+        uuid = 'u%d' % k + ('-' + 'x' * 44 if k == 1 else '')       # one identifier longer than a uuid4 string (36 characters)
         err_ra = -1 if k == 0 else 0.000125 * (k + 1)          # the "no error" marker is a python int
         peak_flux = 1.0000000000000002 * (k + 1)
         _k = k
@@ -95,16 +95,16 @@ def h_classify(cat, models, n):
         cat.Table = T
         cat.ascii = Asc
         cat.classify_catalog = models.classify_catalog
-        cat.write_catalog('/some.dir/cat.v1.csv', items, fmt='csv')
+        cat.write_catalog('/some.dir/cat.csv.v1.csv', items, fmt='csv')      # the extension text also occurs earlier in the name
         want = {}
         for nm, lst in (('_comp', comps), ('_isle', isles), ('_simp', simps)):
             if lst:
-                want['/some.dir/cat.v1%s.csv' % nm] = [x.uuid for x in lst]
-        got = {fn: list(d.get('uuid')) for fn, d in written}
+                want['/some.dir/cat.csv.v1%s.csv' % nm] = [x.uuid for x in lst]
+        got = {fn: [str(u) for u in d.get('uuid')] for fn, d in written}
         c.oblige(tag + ':_comp/_isle/_simp files (suffix before the extension) hold exactly the sources of each type', z3.BoolVal(got == want))
         okvals = True
         for fn, d in written:
-            ids = [int(u[1:]) for u in d.get('uuid')]
+            ids = [int(str(u)[1:].split('-')[0]) for u in d.get('uuid')]
             for col in ('err_ra', 'peak_flux'):
                 vals = [float(v) for v in d.get(col)]
                 okvals = okvals and vals == [float(getattr(items[i], col)) for i in ids]
@@ -215,7 +215,7 @@ def make_catalog(models, first_nan_dec=False, n=4):
         s.err_peak_flux = -1 if k == 0 else 1.1e-5
         s.a, s.b, s.pa = 30.0, 20.0, 10.0
         s.flags = k
-        s.uuid = 'uuid-%s' % ('x' * (3 * k))
+        s.uuid = 'uuid-%s' % ('x' * (3 * k if k < 3 else 45))        # the last one is longer than a uuid4 string
         out.append(s)
     isl = models.IslandSource()
     isl.island = 9
@@ -229,11 +229,12 @@ def oracle(fmt='fits', first_nan_dec=True):
     d = tempfile.mkdtemp(prefix='c18_', dir='/var/tmp')
     try:
         comps, isl, simp = make_catalog(models, first_nan_dec)
-        fn = os.path.join(d, 'out.' + fmt)
+        base = 'out.%s.v2' % fmt                                     # the extension text also occurs earlier in the name
+        fn = os.path.join(d, base + '.' + fmt)
         cat.save_catalog(fn, comps + [isl, simp])
-        cf = os.path.join(d, 'out_comp.' + fmt)
+        cf = os.path.join(d, base + '_comp.' + fmt)
         for suffix, want in (('_comp', len(comps)), ('_isle', 1), ('_simp', 1)):
-            p = os.path.join(d, 'out%s.%s' % (suffix, fmt))
+            p = os.path.join(d, '%s%s.%s' % (base, suffix, fmt))
             if not os.path.exists(p):
                 return True, 'split-missing', 'file %s not written' % os.path.basename(p)
             t = cat.load_table(p)
